@@ -24,7 +24,7 @@ def _run_case(kind, d):
     if kind == 'unpack_pack':
         return ec.run_unpack_pack(None, d['dtype'], d['rows'])
     if kind == 'popcount':
-        return ec.run_popcount(tuple(d['shape']), d['bits'])
+        return ec.run_popcount(tuple(d['shape']), d['bits'], d.get('signed', False))
     if kind == 'tables':
         r = ec.table_oracle()
         return [], (r[2] if r else None)
@@ -79,7 +79,7 @@ def gen_inputs(ck, rng):
         shape = ec.gen_shape(rng, edge=rng.random() < 0.2)
         shape = shape[-3:]
         bits = ec.nested(rng, tuple(shape) + (8,), lambda: rng.randrange(2))
-        out.append(('popcount', {'shape': list(shape), 'bits': bits}))
+        out.append(('popcount', {'shape': list(shape), 'bits': bits, 'signed': rng.random() < 0.4}))
     return out
 
 
@@ -141,7 +141,7 @@ def run(ck):
     ck.rule('tables: all 256 one-character strings + scalars + the eight values, complete; generated: pattern sets (1..17 patterns x 0..13 signals; '
             'canonical / alias / junk / unicode characters; strings, lists, tuples, booleans, None, ints; nested groups -> 3-D/4-D; ragged), '
             'mv arrays 1-D..5-D with pattern counts 1..33 (mostly not multiples of 8), empty axes, C / Fortran / strided layouts; random bit-parallel '
-            'bytes with 1..9 planes; all 8 integer dtypes x boundary and random values x 0-D..3-D x bit-axis lengths 0..width+5; popcount on 1-D..3-D')
+            'bytes with 1..9 planes; all 8 integer dtypes x boundary and random values x 0-D..3-D x bit-axis lengths 0..width+5; popcount on 1-D..3-D uint8 and int8 arrays')
     try:   # documentation-only inconsistency: the numeric code quoted in a constant's docstring
         from translate import gen_logic_tables as glt
         from kyupy import logic as lg
